@@ -30,6 +30,7 @@ import (
 	"github.com/AdguardTeam/dnsproxy/upstream"
 	"github.com/AdguardTeam/golibs/logutil/slogutil"
 	"github.com/AdguardTeam/golibs/netutil"
+	"github.com/ameshkov/dnscrypt/v2"
 	"github.com/miekg/dns"
 )
 
@@ -38,6 +39,7 @@ const (
 	c03ListenIP   = "127.0.0.1"
 	c03FenceZone  = "fence.c03.test."
 	c03UDPGrace   = 150 * time.Millisecond
+	c03DCWait     = 250 * time.Millisecond
 	c03ReplyLimit = 5 * time.Second
 )
 
@@ -118,7 +120,11 @@ type c03Wire struct {
 	UDP   string
 	TCP   string
 	TLS   string
-	dir   string
+	// DC is the DNSCrypt address (UDP and TCP on the same port), DCInfo what
+	// the DNSCrypt client learnt from the resolver's certificate.
+	DC     string
+	DCInfo *dnscrypt.ResolverInfo
+	dir    string
 }
 
 func (w *c03Wire) stop() {
@@ -127,9 +133,28 @@ func (w *c03Wire) stop() {
 	_ = os.RemoveAll(w.dir)
 }
 
-func c03StartWire(l *c03Lists) (w *c03Wire, err error) {
+var (
+	c03DCOnce sync.Once
+	c03DCConf dnscrypt.ResolverConfig
+	c03DCCert *dnscrypt.Cert
+	c03DCErr  error
+)
+
+// c03DNSCrypt makes one DNSCrypt resolver configuration per process.
+func c03DNSCrypt() (dnscrypt.ResolverConfig, *dnscrypt.Cert, error) {
+	c03DCOnce.Do(func() {
+		c03DCConf, c03DCErr = dnscrypt.GenerateResolverConfig("c03.test", nil)
+		if c03DCErr == nil {
+			c03DCCert, c03DCErr = c03DCConf.CreateCert()
+		}
+	})
+
+	return c03DCConf, c03DCCert, c03DCErr
+}
+
+func c03StartWire(l *c03Lists, withDNSCrypt bool) (w *c03Wire, err error) {
 	for attempt := 0; attempt < 6; attempt++ {
-		w, err = c03StartWireOnce(l)
+		w, err = c03StartWireOnce(l, withDNSCrypt)
 		if err == nil || !strings.Contains(err.Error(), "address already in use") {
 			return w, err
 		}
@@ -138,7 +163,7 @@ func c03StartWire(l *c03Lists) (w *c03Wire, err error) {
 	return w, err
 }
 
-func c03StartWireOnce(l *c03Lists) (w *c03Wire, err error) {
+func c03StartWireOnce(l *c03Lists, withDNSCrypt bool) (w *c03Wire, err error) {
 	cert, err := c03Certificate()
 	if err != nil {
 		return nil, err
@@ -189,6 +214,22 @@ func c03StartWireOnce(l *c03Lists) (w *c03Wire, err error) {
 		ConfigModified: func() {},
 		ServePlainDNS:  true,
 	}
+	var dcConf dnscrypt.ResolverConfig
+	dcPort := 0
+	if withDNSCrypt {
+		var dcCert *dnscrypt.Cert
+		if dcConf, dcCert, err = c03DNSCrypt(); err != nil {
+			return fail(fmt.Errorf("dnscrypt resolver config: %w", err))
+		}
+		dcPort = verifkit.FreePort()
+		sconf.DNSCryptConfig = DNSCryptConfig{
+			ResolverCert:   dcCert,
+			ProviderName:   dcConf.ProviderName,
+			UDPListenAddrs: []*net.UDPAddr{{IP: lo, Port: dcPort}},
+			TCPListenAddrs: []*net.TCPAddr{{IP: lo, Port: dcPort}},
+			Enabled:        true,
+		}
+	}
 	if err = s.Prepare(sconf); err != nil {
 		return fail(fmt.Errorf("Prepare: %w", err))
 	}
@@ -199,12 +240,34 @@ func c03StartWireOnce(l *c03Lists) (w *c03Wire, err error) {
 		return fail(fmt.Errorf("Start: %w", err))
 	}
 
-	return &c03Wire{
+	w = &c03Wire{
 		S: s, F: f, Up: up, QLog: ql, Stats: st, dir: dir,
 		UDP: fmt.Sprintf("%s:%d", c03ListenIP, port),
 		TCP: fmt.Sprintf("%s:%d", c03ListenIP, port),
 		TLS: fmt.Sprintf("%s:%d", c03ListenIP, tlsPort),
-	}, nil
+	}
+	if withDNSCrypt {
+		// Fetching the certificate is answered by the DNSCrypt library
+		// itself, before any access check, from 127.0.0.1.
+		w.DC = fmt.Sprintf("%s:%d", c03ListenIP, dcPort)
+		stamp, serr := dcConf.CreateStamp(w.DC)
+		if serr != nil {
+			w.stop()
+
+			return nil, fmt.Errorf("dnscrypt stamp: %w", serr)
+		}
+		for try := 0; try < 3 && w.DCInfo == nil; try++ {
+			cl := &dnscrypt.Client{Net: "udp", Timeout: 2 * time.Second, Logger: slogutil.NewDiscardLogger()}
+			w.DCInfo, serr = cl.DialStamp(stamp)
+		}
+		if w.DCInfo == nil {
+			w.stop()
+
+			return nil, fmt.Errorf("dnscrypt certificate exchange: %w", serr)
+		}
+	}
+
+	return w, nil
 }
 
 const (
@@ -337,7 +400,7 @@ func c03GenWireLists(rng *rand.Rand) *c03Lists {
 
 // c03WireCase is one real request.
 type c03WireCase struct {
-	Transport string `json:"transport"` // udp, tcp, tls
+	Transport string `json:"transport"` // udp, tcp, tls, dnscrypt-udp, dnscrypt-tcp
 	Src       string `json:"source_address"`
 	ID        string `json:"client_id,omitempty"`
 	Name      string `json:"qname"`
@@ -429,6 +492,48 @@ func c03Send(w *c03Wire, c *c03WireCase, fenceNo int, wantReply bool) (o c03Wire
 			break
 		}
 		o.resp = m
+	case "dnscrypt-udp", "dnscrypt-tcp":
+		// The encrypted exchange runs while the fence exchange is made; a
+		// request expected to be dropped is given c03DCWait for a reply to
+		// show up, one expected to be answered the full reply limit.
+		wait := c03DCWait
+		if wantReply {
+			wait = c03ReplyLimit
+		}
+		o.WaitedFor = "fence exchange alongside, reply awaited for " + wait.String()
+		var conn net.Conn
+		var err error
+		if c.Transport == "dnscrypt-udp" {
+			conn, err = net.DialUDP("udp4", &net.UDPAddr{IP: net.ParseIP(c.Src)}, net.UDPAddrFromAddrPort(netip.MustParseAddrPort(w.DC)))
+		} else {
+			conn, err = net.DialTCP("tcp4", &net.TCPAddr{IP: net.ParseIP(c.Src)}, net.TCPAddrFromAddrPort(netip.MustParseAddrPort(w.DC)))
+		}
+		if err != nil {
+			o.Err = "dial: " + err.Error()
+			o.FenceOK = c03Fence(w, fenceNo)
+
+			break
+		}
+		type res struct {
+			m   *dns.Msg
+			err error
+		}
+		done := make(chan res, 1)
+		go func() {
+			cl := &dnscrypt.Client{Net: strings.TrimPrefix(c.Transport, "dnscrypt-"), Timeout: wait, Logger: slogutil.NewDiscardLogger()}
+			m, xerr := cl.ExchangeConn(conn, req, w.DCInfo)
+			done <- res{m, xerr}
+		}()
+		o.FenceOK = c03Fence(w, fenceNo)
+		r := <-done
+		_ = conn.Close()
+		if r.err != nil {
+			o.Err = "exchange: " + r.err.Error()
+		}
+		if r.m != nil {
+			o.GotReply = true
+			o.resp = r.m
+		}
 	default:
 		cl := &dns.Client{Net: "tcp", Timeout: c03ReplyLimit,
 			Dialer: &net.Dialer{LocalAddr: &net.TCPAddr{IP: net.ParseIP(c.Src)}, Timeout: c03ReplyLimit}}
@@ -479,13 +584,15 @@ func c03Send(w *c03Wire, c *c03WireCase, fenceNo int, wantReply bool) (o c03Wire
 
 func TestVerifC03Sockets(t *testing.T) {
 	rep := verifkit.New("C03", "sockets",
-		"case = (access configuration of a running server, transport UDP/TCP/DoT, source address among the loopback aliases, ClientID in the SNI, unique query name, query type) observed on the client socket and in the upstream / query-log / statistics sinks; non-trivial = some list entry covers the source address or equals the ClientID, or some blocked-host pattern matches the name; distinct by the whole tuple")
+		"case = (access configuration of a running server, transport UDP/TCP/DoT/DNSCrypt-over-UDP/DNSCrypt-over-TCP, source address among the loopback aliases, ClientID in the SNI, unique query name, query type) observed on the client socket and in the upstream / query-log / statistics sinks; non-trivial = some list entry covers the source address or equals the ClientID, or some blocked-host pattern matches the name; distinct by the whole tuple")
 	defer func() {
 		if err := rep.Write(); err != nil {
 			t.Fatal(err)
 		}
 	}()
 	rep.Assume("'no reply over UDP' = no datagram on the client socket by the time a fence exchange (an admitted query sent afterwards from 127.0.0.60 to the same server) has completed plus 150 ms; a later datagram would be missed, never misreported")
+
+	rep.Assume("'no reply over DNSCrypt' (UDP and TCP) = the DNSCrypt client's exchange, started before the fence exchange, ends without a decrypted reply within 250 ms (time-out or connection closed); a later reply would be missed, never misreported")
 
 	// Can the aliases be bound at all?
 	probe, err := net.ListenUDP("udp4", &net.UDPAddr{IP: net.ParseIP("127.0.0.33")})
@@ -506,7 +613,7 @@ func TestVerifC03Sockets(t *testing.T) {
 	jobs := make(chan job)
 	var wg sync.WaitGroup
 	master := rep.Rand("main")
-	for wk := 0; wk < 8; wk++ {
+	for wk := 0; wk < 12; wk++ {
 		wg.Add(1)
 		go func() {
 			defer wg.Done()
@@ -525,6 +632,7 @@ func TestVerifC03Sockets(t *testing.T) {
 		class string
 		min   int
 	}{{"udp:refused", 20}, {"tcp:refused", 10}, {"tls:refused", 10}, {"udp:admitted", 20}, {"tcp:admitted", 10}, {"tls:admitted", 10},
+		{"dnscrypt-udp:refused", 5}, {"dnscrypt-tcp:refused", 10}, {"dnscrypt-udp:admitted", 5}, {"dnscrypt-tcp:admitted", 5},
 		{"refused_by_name", 10}, {"refused_by_client", 30}, {"tls_admitted_by_clientid_only", 2}} {
 		if n := rep.ClassCount(need.class); n < need.min {
 			rep.Inconcl(fmt.Sprintf("too few cases of class %s: %d", need.class, n))
@@ -541,7 +649,7 @@ func c03RunWireConf(rep *verifkit.Report, rng *rand.Rand, idx, perConf int) {
 
 		return
 	}
-	w, err := c03StartWire(l)
+	w, err := c03StartWire(l, true)
 	if err != nil {
 		rep.Inconcl("server start failed: " + err.Error())
 
@@ -575,7 +683,9 @@ func c03RunWireConf(rep *verifkit.Report, rng *rand.Rand, idx, perConf int) {
 	both := append(append([]c03Item{}, allow...), deny...)
 
 	for qi := 0; qi < perConf; qi++ {
-		c := &c03WireCase{Transport: []string{"udp", "udp", "udp", "tcp", "tcp", "tls", "tls", "tls"}[rng.Intn(8)]}
+		c := &c03WireCase{Transport: []string{"udp", "udp", "udp", "tcp", "tcp", "tls", "tls", "tls", "dnscrypt-udp", "dnscrypt-tcp", "dnscrypt-tcp"}[rng.Intn(11)]}
+		// silent: transports over which a refused request gets no reply at all.
+		silent := c.Transport == "udp" || strings.HasPrefix(c.Transport, "dnscrypt-")
 		// Source: aimed at an entry, or any alias.
 		c.Src = fmt.Sprintf("127.0.0.%d", 2+rng.Intn(39))
 		if a := c03GenAddr(rng, both); a.Is4() && a.As4()[0] == 127 && a.As4()[1] == 0 && a.As4()[2] == 0 && a.As4()[3] >= 2 && a.As4()[3] <= 40 && rng.Intn(4) != 0 {
@@ -621,7 +731,8 @@ func c03RunWireConf(rep *verifkit.Report, rng *rand.Rand, idx, perConf int) {
 		refused := nameBlocked || (cv.Specified && cv.Excluded)
 
 		o := c03Send(w, c, idx*1000+qi+1, specified && !refused)
-		if c.Transport == "udp" && specified && !refused && !o.GotReply && strings.HasPrefix(o.Err, "read:") {
+		if (c.Transport == "udp" || c.Transport == "dnscrypt-udp") && specified && !refused && !o.GotReply &&
+			(strings.HasPrefix(o.Err, "read:") || strings.HasPrefix(o.Err, "exchange:")) {
 			// One retry under a fresh name: a datagram lost on loopback must
 			// not look like a refusal.  A product that refuses an admitted
 			// client does so every time.
@@ -668,13 +779,15 @@ func c03RunWireConf(rep *verifkit.Report, rng *rand.Rand, idx, perConf int) {
 			switch {
 			case o.Marker || (o.GotReply && o.resp != nil && o.resp.Rcode == dns.RcodeSuccess):
 				rep.Violate("served:"+why+":"+c.Transport, "a request that must not be served was answered", witness("refused"))
-			case c.Transport == "udp" && o.GotReply:
-				rep.Violate("refused:reply-on-udp", "a datagram came back for a request that must get no reply at all ("+o.Rcode+")", witness("no datagram"))
-			case c.Transport != "udp" && (!o.GotReply || o.resp == nil):
+			case silent && o.GotReply:
+				rep.Violate("refused:reply-on-"+c.Transport, "a reply came back for a request that must get no reply at all ("+o.Rcode+")", witness("no reply"))
+			case silent:
+				rep.Event("refused_on_the_wire_as_required:" + c.Transport)
+			case !o.GotReply || o.resp == nil:
 				rep.Violate("refused:no-refused-reply-on-"+c.Transport, "no REFUSED reply: "+o.Err, witness("REFUSED"))
-			case c.Transport != "udp" && o.resp.Rcode != dns.RcodeRefused:
+			case o.resp.Rcode != dns.RcodeRefused:
 				rep.Violate("refused:rcode-"+o.Rcode+"-on-"+c.Transport, "reply to a request that must not be served is not REFUSED", witness("REFUSED"))
-			case c.Transport != "udp" && len(o.resp.Answer) != 0:
+			case len(o.resp.Answer) != 0:
 				rep.Violate("refused:answer-not-empty-on-"+c.Transport, "REFUSED reply carries records", witness("REFUSED, empty answer"))
 			default:
 				rep.Event("refused_on_the_wire_as_required:" + c.Transport)
